@@ -17,6 +17,16 @@
 //  (4) pieces: subsets partition the projection; zero=false leaves other bins bit-identical and overwrites the
 //      subset; zero=true zeroes the rest; a sub-range call fills exactly the sub-range; accumulation of back
 //      projections and idempotent get_output
+//  Additional projector kinds (check_onthefly / check_interp_backprojector, second half of this file):
+//  (3'),(4') the forward-side clauses - linearity, subsets (zero=true/false into pre-filled data), related-viewgram groups, and
+//      sub-range calls (ALL (min,max) axial x tangential combinations when they fit the budget, else every structural class + a
+//      cycling sample; junk outside the requested range must stay bit-identical, inside == the full call) - for the on-the-fly
+//      ForwardProjectorByBinUsingRayTracing; the back-side clauses (linearity, subsets, groups, accumulation) for
+//      BackProjectorByBinUsingInterpolation (no adjointness: not a matched pair)
+//  (5) last sentence of the property: ForwardProjectorByBinUsingRayTracing == P x with P from a symmetry-free, cache-free
+//      ProjMatrixByBinUsingRayTracing with the same settings (1 tangential LOR, same FOV switch), for every bin that is not a tie
+//      (c04_tiescreen.h), tolerance max(2e-5, 6e-5 kappa) of max(max|P x|, max|x|)
+//  Known findings C04-F3 .. F9 are excluded exactly (see the comments at each excl("Fn")), each with a probe under known/C04/.
 #include "explicit_p.h"
 #include "stir/recon_buildblock/ProjectorByBinPairUsingProjMatrixByBin.h"
 #include "stir/recon_buildblock/ForwardProjectorByBin.h"
@@ -24,6 +34,8 @@
 #include "stir/recon_buildblock/BackProjectorByBin.h"
 #include "stir/recon_buildblock/ProjMatrixByBinUsingInterpolation.h"
 #include "stir/recon_buildblock/ForwardProjectorByBinUsingRayTracing.h"
+#include "stir/recon_buildblock/BackProjectorByBinUsingInterpolation.h"
+#include "c04_tiescreen.h"
 #include "stir/recon_buildblock/DataSymmetriesForBins.h"
 #include "stir/RelatedViewgrams.h"
 #include "stir/ViewSegmentNumbers.h"
@@ -32,6 +44,7 @@
 #include <sstream>
 #include <iostream>
 #include <set>
+#include <array>
 
 using namespace vf;
 using namespace stir;
@@ -639,92 +652,842 @@ check_groups(Ctx& X)
   return Result::pass();
 }
 
-// ---- clause 5 experiment (calibration only, env C04_SIDDON=1): on-the-fly Siddon projector vs matrix projector -----------
-// Documented domain of ForwardProjectorByBinUsingRayTracing: cylindrical data, even number of views, zero view offset,
-// x/y voxel size >= tangential sampling, z voxel size = axial sampling or half of it, circular FOV ~1 voxel smaller.
-void
-siddon_experiment(Ctx& X)
+// =====================================================================================================================
+// Additional projector kinds.  The sentences "projection is linear", "projecting piecewise and adding the pieces equals
+// projecting at once", "forward projecting a subset leaves all other bins unchanged / zero" and "every ... axial or
+// tangential sub-range that can be requested" speak about forward (back) projection in general, so they are also decided
+// for the hand-optimised on-the-fly projector ForwardProjectorByBinUsingRayTracing (all its in-line symmetry branches) and,
+// for back projection (linearity, pieces, accumulation - NOT adjointness, it has no matched forward projector here), for
+// BackProjectorByBinUsingInterpolation.  Clause 5 (last sentence of the property) is decided in check_onthefly().
+// =====================================================================================================================
+inline bool
+no_exclude()
 {
+  static const bool v = std::getenv("VERIF_NO_EXCLUDE") != nullptr;
+  return v;
+}
+
+//! is the exclusion of known finding \a id ("F3", "F5", ...) active?  VERIF_NO_EXCLUDE=1 switches all of them off (probes),
+//! C04_NO_EXCLUDE_<id>=1 a single one (to confirm a repair of exactly that defect before the exclusion is deleted)
+//! A probe file names its finding in the case ("probe": "F3"): with VERIF_NO_EXCLUDE=1 only THAT exclusion is then off, so that the
+//! probe keeps failing for its own defect only (and stops failing when exactly that defect is repaired).
+std::string g_probe;
+//! findings that have been repaired in /repo: their exclusions are dead (the input class is part of the normal search again).
+//! After committing work/fixes/C04_ext/01 (F3), 02 (F4), 03 (F9) add the ids here and move the probes to replays/C04/fixed_*.json.
+const std::set<std::string> C04_REPAIRED = { "F3", "F4", "F9" };
+inline bool
+excl(const char* id)
+{
+  if (C04_REPAIRED.count(id))
+    return false;
+  if (std::getenv((std::string("C04_NO_EXCLUDE_") + id).c_str()) != nullptr)
+    return false;
+  if (no_exclude())
+    return !(g_probe.empty() || g_probe == id);
+  return true;
+}
+
+const double TOL_OTF = tol("C04_TOL_OTF", 2e-5); // clause 5: on-the-fly projector vs explicit matrix (float accumulation vs double), rel. to max|P x|
+const double TOL_OTF_KAPPA = tol("C04_TOL_OTF_KAPPA", 6e-5); // ... times the conditioning kappa of the ray (calibrated, see props.d/C04.py)
+const double TOL_OTF_CAP = tol("C04_TOL_OTF_CAP", 2e-2);     // bins whose tolerance would exceed this are not decided (counted)
+const double TOL_BPI = tol("C04_TOL_BPI", 1e-5); // interpolating back projector: linearity / pieces (incremental float arithmetic), rel. to the max of the image
+
+shared_ptr<VoxelsOnCartesianGrid<float>>
+combine(const Ctx& X, const VoxelsOnCartesianGrid<float>& i1, const VoxelsOnCartesianGrid<float>& i2, double a, double b)
+{
+  auto comb = X.new_img();
+  auto it = comb->begin_all();
+  auto p1 = i1.begin_all_const();
+  auto p2 = i2.begin_all_const();
+  for (; it != comb->end_all(); ++it, ++p1, ++p2)
+    *it = float(a * double(*p1) + b * double(*p2));
+  return comb;
+}
+
+//! bins of subset k of n for the symmetries \a sy (ForwardProjectorByBin.cxx / BackProjectorByBin.cxx: find_basic_vs_nums_in_subset)
+std::vector<char>
+subset_mask_for(const Ctx& X, const DataSymmetriesForViewSegmentNumbers& sy, int k, int n)
+{
+  std::vector<char> mask(X.P.bins.size(), 0);
+  for (std::size_t i = 0; i < X.P.bins.size(); ++i)
+    {
+      ViewSegmentNumbers vs(X.P.bins[i].view_num(), X.P.bins[i].segment_num());
+      sy.find_basic_view_segment_numbers(vs);
+      if ((vs.view_num() - X.S.pdi->get_min_view_num()) % n == k)
+        mask[i] = 1;
+    }
+  return mask;
+}
+
+//! what ForwardProjectorByBinUsingRayTracing / BackProjectorByBinUsingInterpolation need to know about the z geometry
+struct ZGeom
+{
+  bool ok = false;
+  std::string why;
+  int nppr = 0;           // image planes per ring
+  int min_seg = 0;
+  std::vector<int> nppap; // image planes per axial position, per segment
+  std::vector<double> off; // axial_pos_to_z_offset, per segment
+  bool aligned = true;     // all offsets integer: the data's planes are centred on image planes
+};
+
+ZGeom
+z_geometry(const Ctx& X)
+{
+  ZGeom Z;
   const ProjDataInfo& p = *X.S.pdi;
-  if (X.S.sc->get_scanner_geometry() != "Cylindrical" || p.is_tof_data() || p.get_num_views() % 2 != 0 || std::fabs(p.get_phi(Bin(0, 0, 0, 0))) > 1e-4)
-    return;
-  const int zdiv = X.c["image"]["z_div"].get<int>();
-  const auto vs = X.S.img->get_voxel_size();
-  const float samp = p.get_sampling_in_s(Bin(0, 0, 0, 0));
-  if (zdiv > 2 || samp > vs.x() + 1e-3 || samp > vs.y() + 1e-3)
-    return;
-  shared_ptr<ForwardProjectorByBinUsingRayTracing> fs(new ForwardProjectorByBinUsingRayTracing());
-  vp::MatrixOpts o; // 1 LOR, cylindrical FOV
-  shared_ptr<ProjMatrixByBin> m = vp::make_matrix(o, true, true, true, true, true, true, true);
-  shared_ptr<ForwardProjectorByBin> fm(new ForwardProjectorByBinUsingProjMatrixByBin(m));
+  Z.min_seg = p.get_min_segment_num();
   try
     {
-      fs->set_up(X.S.pdi, X.S.img);
-      fm->set_up(X.S.pdi, X.S.img);
+      DataSymmetriesForBins_PET_CartesianGrid dsy(X.S.pdi, X.S.img);
+      Z.nppr = int(std::lround(dsy.get_num_planes_per_scanner_ring()));
+      for (int sg = p.get_min_segment_num(); sg <= p.get_max_segment_num(); ++sg)
+        {
+          Z.nppap.push_back(int(std::lround(dsy.get_num_planes_per_axial_pos(sg))));
+          const double o = dsy.get_axial_pos_to_z_offset(sg);
+          Z.off.push_back(o);
+          if (std::fabs(o - std::round(o)) > 1e-3)
+            Z.aligned = false;
+        }
+      Z.ok = true;
     }
-  catch (const std::exception&)
+  catch (const stir_verif::AssertionFailure&)
     {
-      stats().count("siddon: set_up rejected");
-      return;
-    }
-  std::vector<double> x;
-  auto im = X.new_img();
-  vg::fill_random(*im, X.c["seed_x"].get<uint64_t>() + 99, 0.1, 1.);
-  auto p1 = X.new_pd(), p2 = X.new_pd();
-  try
-    {
-      fs->forward_project(*p1, *im);
+      throw;
     }
   catch (const std::exception& e)
     {
-      stats().count(std::string("siddon: forward_project threw: ") + std::string(e.what()).substr(0, 60));
-      return;
+      Z.why = std::string("symmetries: ") + std::string(e.what()).substr(0, 50);
     }
-  fm->forward_project(*p2, *im);
-  const std::vector<double> a = X.P.projdata_to_vec(*p1), b = X.P.projdata_to_vec(*p2);
-  const double sc = std::max(max_abs(b), 1e-30);
-  CartesianCoordinate3D<int> imin, imax;
-  X.S.img->get_regular_range(imin, imax);
-  const double fovrad = std::min(std::min(imax.x(), -imin.x()) * vs.x(), std::min(imax.y(), -imin.y()) * vs.y());
-  double worst_in = 0, worst_all = 0;
-  long n_in = 0, n_bad = 0;
-  for (std::size_t i = 0; i < a.size(); ++i)
+  return Z;
+}
+
+//! sub-ranges (a0,a1,t0,t1) to request for one related-viewgram group.  If the full cross of all axial pairs and all tangential
+//! pairs fits the budget it is enumerated completely ("every combination of min/max axial and tangential position"); otherwise
+//! the structurally special ones (entirely negative / entirely positive tangential side, single bins, straddling 0, full) are
+//! always present and the rest of the budget is a seeded sample that cycles through ALL tangential pairs and ALL axial pairs.
+std::vector<std::array<int, 4>>
+choose_ranges(int amin, int amax, int tmin, int tmax, long budget, uint64_t seed, bool& complete)
+{
+  std::vector<std::pair<int, int>> AP, TP;
+  for (int a0 = amin; a0 <= amax; ++a0)
+    for (int a1 = a0; a1 <= amax; ++a1)
+      AP.push_back({ a0, a1 });
+  for (int t0 = tmin; t0 <= tmax; ++t0)
+    for (int t1 = t0; t1 <= tmax; ++t1)
+      TP.push_back({ t0, t1 });
+  std::vector<std::array<int, 4>> out;
+  complete = long(AP.size()) * long(TP.size()) <= budget;
+  if (complete)
     {
-      const double d = std::fabs(a[i] - b[i]) / sc;
-      worst_all = std::max(worst_all, d);
-      if (std::fabs(p.get_s(X.P.bins[i])) <= fovrad - 2. * std::max(vs.x(), vs.y()))
+      for (auto& a : AP)
+        for (auto& t : TP)
+          out.push_back({ a.first, a.second, t.first, t.second });
+      return out;
+    }
+  SplitMix g(seed);
+  auto shuffle = [&](std::vector<std::pair<int, int>>& v) {
+    for (std::size_t i = v.size(); i > 1; --i)
+      std::swap(v[i - 1], v[std::size_t(g.range(0, long(i) - 1))]);
+  };
+  shuffle(AP);
+  shuffle(TP);
+  std::set<std::array<int, 4>> seen;
+  auto add = [&](int a0, int a1, int t0, int t1) {
+    if (t0 > t1 || a0 > a1 || t0 < tmin || t1 > tmax)
+      return;
+    std::array<int, 4> r{ a0, a1, t0, t1 };
+    if (seen.insert(r).second)
+      out.push_back(r);
+  };
+  const std::pair<int, int> arand = AP[0];
+  // structural classes, with the full axial range and with one random axial sub-range
+  for (int rep = 0; rep < 2; ++rep)
+    {
+      const int a0 = rep ? arand.first : amin, a1 = rep ? arand.second : amax;
+      add(a0, a1, tmin, tmax);
+      add(a0, a1, tmin, -1);  // entirely on the negative side, ending next to 0
+      add(a0, a1, tmin, -2);  // entirely negative, not adjacent to 0
+      add(a0, a1, 1, tmax);   // entirely positive
+      add(a0, a1, 2, tmax);
+      add(a0, a1, 0, 0);      // single bins
+      add(a0, a1, -1, -1);
+      add(a0, a1, 1, 1);
+      add(a0, a1, tmin, tmin);
+      add(a0, a1, tmax, tmax);
+      add(a0, a1, tmin, 0);   // ends / starts at 0
+      add(a0, a1, 0, tmax);
+      add(a0, a1, -1, 1);
+    }
+  std::size_t ia = 0, it = 0;
+  const long want = std::max(budget, long(out.size()));
+  for (long guard = 0; long(out.size()) < want && guard < 4 * want; ++guard)
+    {
+      add(AP[ia].first, AP[ia].second, TP[it].first, TP[it].second);
+      ia = (ia + 1) % AP.size();
+      it = (it + 1) % TP.size();
+      if (it == 0)
+        ia = (ia + 1) % AP.size(); // de-correlate the two cycles
+    }
+  return out;
+}
+
+long
+subrange_budget(const json& c)
+{
+  static const char* e = std::getenv("C04_SUBRANGE_BUDGET");
+  if (e)
+    return std::atol(e);
+  return c.value("sr_budget", 1200L); // sub-range calls per case for the on-the-fly projector (set by the generator from the size: quick 1200, thorough 20000)
+}
+
+// KNOWN FINDING C04-F3 (see the report): ForwardProjectorByBinUsingRayTracing::forward_project_all_symmetries_2D, branch
+// "tang_pos_num==0 and phi!=k*45" with 2 image planes per axial position, traces the half-ring-shifted rays into Projall2 only
+// up to max_axial_pos_num (every other branch uses max_axial_pos_num + 1) but reads Projall2[ax + 1]: the bin at tangential
+// position 0 of the LAST requested axial position of segment 0 misses the quarter contribution of the plane above it.
+// Affected bins (exactly): segment with zero ring difference, 2 planes per axial position, tangential position 0,
+// axial position == the last one of the call, basic view of the related group neither 0 nor num_views/4.
+inline bool
+f3_group(const ZGeom& Z, const ProjDataInfoCylindrical& pc, int basic_seg, int basic_view, int num_views)
+{
+  return pc.get_average_ring_difference(basic_seg) == 0 && Z.nppap[std::size_t(basic_seg - Z.min_seg)] == 2 && !(basic_view == 0 || 4 * basic_view == num_views);
+}
+
+// ---- the on-the-fly forward projector: clauses 3, 4 (forward side) and 5 -------------------------------------------------
+Result
+check_onthefly(Ctx& X)
+{
+  const json& c = X.c;
+  const ProjDataInfo& p = *X.S.pdi;
+  // ---- domain of the class; every restriction cites its source
+  std::string na;
+  if (X.S.sc->get_scanner_geometry() != "Cylindrical")
+    na = "not a cylindrical scanner"; // class doc: "projection data info HAS to be of type ProjDataInfoCylindrical", s antisymmetric in tang_pos_num
+  else if (p.get_num_views() % 2 != 0)
+    na = "odd number of views"; // set_up: error("... cannot handle data with odd number of views")
+  else if (std::fabs(p.get_phi(Bin(0, 0, 0, 0))) > 1e-4)
+    na = "view offset"; // set_up: error("... cannot handle data with non-zero view offset")
+  else if (p.is_tof_data())
+    {
+      // TOF is not mentioned in the class documentation.  With TOF data the symmetries object switches the segment-swap symmetry off,
+      // so any oblique segment ends in error("...error in symmetries. Check 3D case") at projection time (reported, not a finding).
+      // KNOWN FINDING C04-F6: TOF data with segment 0 only are accepted by set_up and forward_project, and every TOF bin receives the
+      // complete non-TOF line integral (the matrix applies the TOF kernel): silently different data.  Excluded exactly: TOF and no oblique segment.
+      if (p.get_min_segment_num() == 0 && p.get_max_segment_num() == 0)
         {
-          ++n_in;
-          worst_in = std::max(worst_in, d);
-          if (d > 1e-3)
-            ++n_bad;
+          if (excl("F6"))
+            {
+              na = "TOF data, direct sinograms only (known finding C04-F6)";
+              stats().count("excluded: on-the-fly projector with direct-plane TOF data (known finding C04-F6)");
+            }
+        }
+      else
+        na = "TOF data with oblique segments (error() at projection time)";
+    }
+  ZGeom Z;
+  if (na.empty())
+    {
+      Z = z_geometry(X);
+      if (!Z.ok)
+        na = Z.why;
+      else if (Z.nppr != 2 && excl("F4"))
+        na = "z voxel size != ring spacing / 2"; // Siddon.cxx:124-126 "in our current coordinate system, the following constant is always 2" + assertion; finding C04-F4
+      else
+        for (int n : Z.nppap)
+          if (n != 1 && n != 2)
+            na = "planes per axial position not 1 or 2"; // class doc: "z voxel size is either equal to or exactly [half] the sampling in axial direction of the segments"
+    }
+  if (na.empty() && excl("F7"))
+    {
+      // KNOWN FINDING C04-F7 (b): proj_Siddon reads the image through the x<->y swapping in-line symmetry unconditionally
+      // (Bild[Z][X][-Y], Siddon.cxx:362 ff.), also when the 90-degree symmetries are off and the result goes to a dummy viewgram.  With
+      // different x and y voxel sizes the swapped index can leave the grid (assertion in this build, out-of-bounds read in Release).
+      // Excluded exactly: voxel sizes differ AND round(fovrad/vx) > y extent or round(fovrad/vy) > x extent.
+      const auto vs0 = X.S.img->get_voxel_size();
+      CartesianCoordinate3D<int> i0, i1;
+      X.S.img->get_regular_range(i0, i1);
+      const double ex = std::min(i1.x(), -i0.x()), ey = std::min(i1.y(), -i0.y());
+      const double fr = std::min(ex * vs0.x(), ey * vs0.y());
+      if (std::fabs(vs0.x() - vs0.y()) > 1e-4 * vs0.x() && (std::floor(fr / vs0.x() + 0.5 + 1e-3) > ey || std::floor(fr / vs0.y() + 0.5 + 1e-3) > ex))
+        {
+          na = "known finding C04-F7: swapped image index leaves the grid";
+          stats().count("excluded: on-the-fly projector, x/y voxel sizes differ and the swapped index leaves the grid (known finding C04-F7)");
         }
     }
-  if (std::getenv("C04_SIDDON_DEBUG") && worst_in > std::atof(std::getenv("C04_SIDDON_DEBUG")))
+  if (!na.empty())
     {
-      std::size_t w = 0;
-      double wd = 0;
-      for (std::size_t i = 0; i < a.size(); ++i)
-        if (std::fabs(p.get_s(X.P.bins[i])) <= fovrad - 2. * std::max(vs.x(), vs.y()) && std::fabs(a[i] - b[i]) > wd)
-          {
-            wd = std::fabs(a[i] - b[i]);
-            w = i;
-          }
-      std::cerr << "SIDDON worst " << worst_in << " at " << show_bin(X.P.bins[w]) << " siddon " << a[w] << " matrix " << b[w] << " scale " << sc << " case " << X.c.dump() << "\n";
+      stats().cls("on-the-fly projector: not applicable (" + na + ")");
+      return Result::pass();
     }
-  stats().count("siddon: cases compared");
-  stats().count("siddon: bins well inside both FOVs", n_in);
-  stats().count("siddon: bins well inside both FOVs differing by > 1e-3 max", n_bad);
-  stats().maxi("siddon: max rel diff, bins >= 2 voxels inside the FOV", worst_in);
-  stats().maxi("siddon: max rel diff, all bins", worst_all);
-  if (n_in > 0 && n_bad == 0)
-    stats().count("siddon: cases agreeing to 1e-3 inside the FOV");
+  const ProjDataInfoCylindrical& pc = dynamic_cast<const ProjDataInfoCylindrical&>(p);
+  const bool cyl_fov = c["cyl_fov"].get<bool>();
+  shared_ptr<ForwardProjectorByBinUsingRayTracing> fs(new ForwardProjectorByBinUsingRayTracing());
+  {
+    std::istringstream is(cat("Forward Projector Using Ray Tracing Parameters:=\nrestrict to cylindrical FOV := ", cyl_fov ? 1 : 0, "\nEnd Forward Projector Using Ray Tracing Parameters:=\n"));
+    if (!fs->parse(is))
+      return Result::fail("harness: cannot parse the ray tracing forward projector parameters");
+  }
+  try
+    {
+      fs->set_up(X.S.pdi, X.S.img);
+    }
+  catch (const stir_verif::AssertionFailure&)
+    {
+      throw;
+    }
+  catch (const std::exception& e)
+    {
+      stats().cls(std::string("on-the-fly projector: set_up rejected: ") + std::string(e.what()).substr(0, 60));
+      return Result::pass();
+    }
+  stats().cls("on-the-fly projector: exercised");
+  struct AssertsGuard
+  { // experiments only (C04_ASSERTS_OFF=1): what a Release build computes where this build asserts
+    AssertsGuard() { if (std::getenv("C04_ASSERTS_OFF")) stir_verif::asserts_on = false; }
+    ~AssertsGuard() { stir_verif::asserts_on = true; }
+  } asserts_guard;
+  stats().cls(Z.aligned ? "on-the-fly: image planes centred on data planes" : "on-the-fly: image planes half a plane off the data planes");
+  shared_ptr<DataSymmetriesForViewSegmentNumbers> sym(fs->get_symmetries_used()->clone());
+  const std::string desc = cat("[on-the-fly ray tracing projector, cylFOV=", cyl_fov, " views=", p.get_num_views(), " bins=", X.P.bins.size(), " voxels=", X.P.nvox(), "]");
+  const int num_views = p.get_num_views();
+
+  // ---- per-bin tie screen and conditioning (c04_tiescreen.h), used by clause 5 and by the sub-range comparison ---------------
+  const auto vsz = X.S.img->get_voxel_size();
+  CartesianCoordinate3D<int> imin, imax;
+  X.S.img->get_regular_range(imin, imax);
+  c04::OtfGeom G;
+  G.vx = vsz.x();
+  G.vy = vsz.y();
+  G.fovrad = std::min(std::min(imax.x(), -imin.x()) * double(vsz.x()), std::min(imax.y(), -imin.y()) * double(vsz.y()));
+  G.cyl_fov = cyl_fov;
+  G.R = pc.get_ring_radius();
+  std::vector<double> kap(X.P.bins.size(), 1.);
+  std::vector<int> tie(X.P.bins.size(), 0), tie_dim(X.P.bins.size(), -1);
+  for (std::size_t i = 0; i < X.P.bins.size(); ++i)
+    {
+      const std::size_t si = std::size_t(X.P.bins[i].segment_num() - Z.min_seg);
+      tie[i] = int(c04::screen_bin(pc, X.P.bins[i], G, Z.off[si], Z.nppap[si], Z.nppr, kap[i], tie_dim[i]));
+    }
+
+  // ---- whole data + linearity (clause 3) -----------------------------------------------------------------------------
+  std::vector<double> x, x2;
+  auto imx = X.random_img(c["seed_x"].get<uint64_t>() + 71, x);
+  auto imx2 = X.random_img(c["seed_x"].get<uint64_t>() + 72, x2);
+  const double a = c["a"].get<double>(), b = c["b"].get<double>();
+  auto comb = combine(X, *imx, *imx2, a, b);
+  const float prefill = -7.25F;
+  auto pd = X.new_pd(prefill), pd2 = X.new_pd(), pd3 = X.new_pd();
+  fs->forward_project(*pd, *imx); // "it overwrites the data already present in the projection data"
+  fs->forward_project(*pd2, *imx2);
+  fs->forward_project(*pd3, *comb);
+  const std::vector<double> Ax = X.P.projdata_to_vec(*pd), Ax2 = X.P.projdata_to_vec(*pd2), Axc = X.P.projdata_to_vec(*pd3);
+  // scale of the comparisons: the largest bin, but not less than a chord of one voxel through the largest voxel (the LOIs are in
+  // units of the x voxel size).  Path lengths carry an absolute float noise of ~1e-6 voxel (a ray touching the corner of its first
+  // voxel gets 4e-7 from one code and 0 from the other); in data sets where every ray only grazes the image that noise is not small
+  // relative to the largest bin, so the tolerance is never tighter than TOL x (one voxel chord x max|x|).
+  const double sc_floor = std::max(max_abs(x), 1e-30);
+  const double scf = std::max(max_abs(Ax), sc_floor);
+  if (max_abs(Ax) == 0.)
+    stats().cls("on-the-fly: all-zero projection (image outside every LOR)");
+  {
+    std::vector<double> lin(Ax.size());
+    for (std::size_t i = 0; i < lin.size(); ++i)
+      lin[i] = a * Ax[i] + b * Ax2[i];
+    std::size_t w = 0;
+    const double sc = std::max(std::fabs(a) * max_abs(Ax) + std::fabs(b) * max_abs(Ax2), 1e-30);
+    const double d = max_diff(Axc, lin, &w);
+    stats().maxi("on-the-fly (3) max |A(ax+bx') - aAx - bAx'| / scale", d / sc);
+    VF_CHECK(d <= TOL_LINEAR * sc, "(3) on-the-fly forward projection not linear at ", show_bin(X.P.bins[w]), ": A(ax+bx')=", Axc[w], " aAx+bAx'=", lin[w], " scale ", sc, " a=", a, " b=", b, " ",
+             desc);
+  }
+
+  // ---- subsets (clause 4) ----------------------------------------------------------------------------------------------
+  {
+    const int n = std::max(1, std::min(c["num_subsets"].get<int>(), num_views));
+    std::vector<double> sum_f(Ax.size(), 0.);
+    std::vector<int> covered(Ax.size(), 0);
+    for (int k = 0; k < n; ++k)
+      {
+        const std::vector<char> mask = subset_mask_for(X, *sym, k, n);
+        auto pz = X.new_pd(prefill);
+        fs->forward_project(*pz, *imx, k, n, true);
+        auto pk = X.new_pd(prefill);
+        fs->forward_project(*pk, *imx, k, n, false);
+        const std::vector<double> vz = X.P.projdata_to_vec(*pz), vk = X.P.projdata_to_vec(*pk);
+        for (std::size_t i = 0; i < mask.size(); ++i)
+          {
+            if (mask[i])
+              {
+                covered[i]++;
+                VF_CHECK(std::fabs(vz[i] - Ax[i]) <= TOL_PIECES * scf, "(4) on-the-fly subset ", k, "/", n, " zero=true: ", show_bin(X.P.bins[i]), " = ", vz[i], " but one-shot projection gives ", Ax[i],
+                         " ", desc);
+                VF_CHECK(std::fabs(vk[i] - Ax[i]) <= TOL_PIECES * scf, "(4) on-the-fly subset ", k, "/", n, " zero=false: ", show_bin(X.P.bins[i]), " inside the subset = ", vk[i], " (pre-filled with ",
+                         prefill, "), one-shot projection gives ", Ax[i], " ", desc);
+              }
+            else
+              {
+                if (n > 1)
+                  VF_CHECK(vz[i] == 0., "(4) on-the-fly subset ", k, "/", n, " zero=true: ", show_bin(X.P.bins[i]), " outside the subset is ", vz[i], " instead of 0 ", desc);
+                else
+                  VF_CHECK(false, "(4) on-the-fly n=1 but ", show_bin(X.P.bins[i]), " is not in the only subset ", desc);
+                VF_CHECK(vk[i] == double(prefill), "(4) on-the-fly subset ", k, "/", n, " zero=false: ", show_bin(X.P.bins[i]), " outside the subset changed from ", prefill, " to ", vk[i], " ", desc);
+              }
+            sum_f[i] += mask[i] ? vz[i] : 0.;
+          }
+      }
+    for (std::size_t i = 0; i < covered.size(); ++i)
+      VF_CHECK(covered[i] == 1, "(4) on-the-fly: ", show_bin(X.P.bins[i]), " belongs to ", covered[i], " of the ", n, " subsets ", desc);
+    std::size_t w = 0;
+    const double d = max_diff(sum_f, Ax, &w);
+    VF_CHECK(d <= TOL_PIECES * scf, "(4) on-the-fly: sum over ", n, " subsets of forward projections != one-shot at ", show_bin(X.P.bins[w]), ": ", sum_f[w], " vs ", Ax[w], " ", desc);
+    stats().count("on-the-fly: subset calls checked", n);
+  }
+
+  // ---- related-viewgram groups and sub-range calls (clause 4) ---------------------------------------------------------------
+  {
+    fs->set_input(*imx);
+    std::vector<ViewSegmentNumbers> basics;
+    for (int seg = p.get_min_segment_num(); seg <= p.get_max_segment_num(); ++seg)
+      for (int view = p.get_min_view_num(); view <= p.get_max_view_num(); ++view)
+        if (sym->is_basic(ViewSegmentNumbers(view, seg)))
+          basics.push_back(ViewSegmentNumbers(view, seg));
+    const long per_group = std::max(30L, subrange_budget(c) / std::max<long>(1, long(basics.size())));
+    std::vector<int> group_of_bin(X.P.bins.size(), -1);
+    int ngroups = 0;
+    long f3_skipped = 0, f5_skipped = 0, ztie_skipped = 0;
+    for (int tofk = p.get_min_tof_pos_num(); tofk <= p.get_max_tof_pos_num(); ++tofk) // (one pass for non-TOF data; TOF only when the exclusion of C04-F6 is off)
+    for (const ViewSegmentNumbers& vs : basics)
+      {
+        ++ngroups;
+        const int seg = vs.segment_num(), view = vs.view_num();
+        RelatedViewgrams<float> rv = pd->get_empty_related_viewgrams(vs, sym, false, tofk);
+        stats().maxi("on-the-fly: largest related-viewgram group", double(rv.get_num_viewgrams()));
+        stats().cls(cat("on-the-fly: groups of ", rv.get_num_viewgrams(), " viewgrams, ", seg == 0 ? "direct" : "oblique"));
+        fs->forward_project(rv);
+        for (auto it = rv.begin(); it != rv.end(); ++it)
+          for (int ax = p.get_min_axial_pos_num(it->get_segment_num()); ax <= p.get_max_axial_pos_num(it->get_segment_num()); ++ax)
+            for (int t = p.get_min_tangential_pos_num(); t <= p.get_max_tangential_pos_num(); ++t)
+              {
+                const Bin bn(it->get_segment_num(), it->get_view_num(), ax, t, tofk);
+                const long bi = X.P.bin_index(bn);
+                VF_CHECK(group_of_bin[std::size_t(bi)] == -1, "on-the-fly: ", show_bin(bn), " occurs in two related-viewgram groups ", desc);
+                group_of_bin[std::size_t(bi)] = ngroups;
+                const double v = (*it)[ax][t];
+                VF_CHECK(std::fabs(v - Ax[std::size_t(bi)]) <= TOL_PIECES * scf, "(4) on-the-fly related-viewgram call gives ", v, " at ", show_bin(bn), ", whole-data projection ", Ax[std::size_t(bi)],
+                         " ", desc);
+              }
+        // the same call into viewgrams that already hold data: ForwardProjectorByBin.h documents forward_project(RelatedViewgrams&) as
+        // "it overwrites the data already present in the viewgram".
+        // KNOWN FINDING C04-F9: ForwardProjectorByBinUsingRayTracing ADDS to the viewgrams (every branch ends in "pos_view[...] += Projall[...]");
+        // only callers that pass empty viewgrams (forward_project(ProjData&...), the objective functions) get the documented result.
+        if (!excl("F9"))
+          {
+            RelatedViewgrams<float> full = pd->get_empty_related_viewgrams(vs, sym, false, tofk);
+            for (auto it = full.begin(); it != full.end(); ++it)
+              it->fill(prefill);
+            fs->forward_project(full);
+            auto iw = rv.begin();
+            for (auto it = full.begin(); it != full.end(); ++it, ++iw)
+              for (int ax = p.get_min_axial_pos_num(it->get_segment_num()); ax <= p.get_max_axial_pos_num(it->get_segment_num()); ++ax)
+                for (int t = p.get_min_tangential_pos_num(); t <= p.get_max_tangential_pos_num(); ++t)
+                  VF_CHECK(std::fabs(double((*it)[ax][t]) - double((*iw)[ax][t])) <= TOL_PIECES * scf, "(4) on-the-fly forward_project(RelatedViewgrams) into viewgrams pre-filled with ", prefill,
+                           " gives ", (*it)[ax][t], " at ", show_bin(Bin(it->get_segment_num(), it->get_view_num(), ax, t, tofk)), "; into empty viewgrams it gives ", (*iw)[ax][t],
+                           ": the data already present are not overwritten (documented: \"it overwrites the data already present in the viewgram\") ", desc);
+          }
+        else
+          stats().count("excluded: on-the-fly forward_project into non-empty viewgrams (known finding C04-F9), groups");
+        // sub-ranges: all viewgrams of a group must have the axial range of the basic segment (segment-swap symmetry: true for the generated data)
+        const int amin = p.get_min_axial_pos_num(seg), amax = p.get_max_axial_pos_num(seg);
+        bool same_range = true;
+        for (auto it = rv.begin(); it != rv.end(); ++it)
+          same_range = same_range && p.get_min_axial_pos_num(it->get_segment_num()) == amin && p.get_max_axial_pos_num(it->get_segment_num()) == amax;
+        if (!same_range)
+          continue;
+        const int tmin = p.get_min_tangential_pos_num(), tmax = p.get_max_tangential_pos_num();
+        bool complete = false;
+        std::vector<std::array<int, 4>> ranges = choose_ranges(amin, amax, tmin, tmax, per_group, c["seed_x"].get<uint64_t>() * 31 + uint64_t(ngroups), complete);
+        // the case's own sub-ranges as well (they are the ones the shrinker can minimise)
+        for (const json& r : c["subranges"])
+          {
+            const int nax = amax - amin + 1, ntg = tmax - tmin + 1;
+            int a0 = amin + int(r[0].get<long>() % nax), a1 = amin + int(r[1].get<long>() % nax);
+            int t0 = tmin + int(r[2].get<long>() % ntg), t1 = tmin + int(r[3].get<long>() % ntg);
+            if (a0 > a1)
+              std::swap(a0, a1);
+            if (t0 > t1)
+              std::swap(t0, t1);
+            ranges.push_back({ a0, a1, t0, t1 });
+          }
+        if (complete)
+          stats().count("on-the-fly: groups with ALL (min,max) axial x tangential sub-ranges enumerated");
+        else
+          stats().count("on-the-fly: groups with a sampled set of sub-ranges");
+        const bool f3 = f3_group(Z, pc, seg, view, num_views);
+        // KNOWN FINDING C04-F5: image planes half a plane off the data's planes (half-integer axial_pos_to_z_offset): every ray of a
+        // direct segment runs exactly in the plane between two image planes; the projector picks ONE of them with
+        // round(start_point.z()) (Siddon.cxx:213,285), and because round() is "half away from zero" the choice depends on the sign of
+        // z, i.e. on min_axial_pos_num of the call: a sub-range call starting at axial position >= 1 projects other planes than the full call.
+        const bool f5 = !Z.aligned && pc.get_average_ring_difference(seg) == 0 && excl("F5");
+        for (const auto& r : ranges)
+          {
+            const int a0 = r[0], a1 = r[1], t0 = r[2], t1 = r[3];
+            RelatedViewgrams<float> sub = pd->get_empty_related_viewgrams(vs, sym, false, tofk);
+            // junk outside the requested range (must stay bit-identical), zero inside (so that "overwrites" - the base class
+            // documentation - and "adds to" - what this projector does - are not distinguished here)
+            for (auto it = sub.begin(); it != sub.end(); ++it)
+              for (int ax = amin; ax <= amax; ++ax)
+                for (int t = tmin; t <= tmax; ++t)
+                  if (!(ax >= a0 && ax <= a1 && t >= t0 && t <= t1))
+                    (*it)[ax][t] = prefill;
+            fs->forward_project(sub, a0, a1, t0, t1);
+            for (auto it = sub.begin(); it != sub.end(); ++it)
+              for (int ax = amin; ax <= amax; ++ax)
+                for (int t = tmin; t <= tmax; ++t)
+                  {
+                    const double v = (*it)[ax][t];
+                    if (ax >= a0 && ax <= a1 && t >= t0 && t <= t1)
+                      {
+                        if (f3 && t == 0 && ax == a1 && excl("F3"))
+                          {
+                            ++f3_skipped;
+                            continue; // known finding C04-F3
+                          }
+                        if (f5)
+                          {
+                            ++f5_skipped;
+                            continue; // known finding C04-F5
+                          }
+                        const Bin bn(it->get_segment_num(), it->get_view_num(), ax, t, tofk);
+                        const std::size_t bi = std::size_t(X.P.bin_index(bn));
+                        const double w = Ax[bi];
+                        // the two calls compute the start point z from different min_axial_pos_num: equal up to float rounding of z, which
+                        // moves plane crossings by eps * kappa (oblique rays) and flips the first/last plane when z is a rounding tie
+                        if (tie[bi] != int(c04::NO_TIE) && tie_dim[bi] == 0)
+                          {
+                            ++ztie_skipped;
+                            continue;
+                          }
+                        const double tol_i = std::max(TOL_PIECES, TOL_OTF_KAPPA * kap[bi]);
+                        if (tol_i > TOL_OTF_CAP)
+                          continue;
+                        stats().maxi("on-the-fly (4) max |sub-range call - whole-data projection| / max", std::fabs(v - w) / scf);
+                        stats().maxi("on-the-fly (4) max |sub-range call - whole-data projection| / max / kappa", std::fabs(v - w) / scf / kap[bi]);
+                        VF_CHECK(std::fabs(v - w) <= tol_i * scf, "(4) on-the-fly sub-range call ax ", a0, "..", a1, " tang ", t0, "..", t1, " gives ", v, " at ", show_bin(bn),
+                                 ", whole-data projection ", w, " ", desc);
+                      }
+                    else
+                      VF_CHECK(v == double(prefill), "(4) on-the-fly sub-range call ax ", a0, "..", a1, " tang ", t0, "..", t1, " changed ",
+                               show_bin(Bin(it->get_segment_num(), it->get_view_num(), ax, t, tofk)), " outside the sub-range from ", prefill, " to ", v, " ", desc);
+                  }
+            if (t1 < 0)
+              stats().count(seg == 0 ? "on-the-fly: sub-range calls entirely on the negative tangential side, direct" : "on-the-fly: sub-range calls entirely on the negative tangential side, oblique");
+            else if (t0 > 0)
+              stats().count("on-the-fly: sub-range calls entirely on the positive tangential side");
+            if (t0 == t1 && a0 == a1)
+              stats().count("on-the-fly: single-bin sub-range calls");
+            stats().count("on-the-fly: sub-range calls checked");
+          }
+      }
+    for (std::size_t i = 0; i < group_of_bin.size(); ++i)
+      VF_CHECK(group_of_bin[i] > 0, "on-the-fly: ", show_bin(X.P.bins[i]), " is in no related-viewgram group ", desc);
+    stats().count("on-the-fly: related-viewgram groups checked", ngroups);
+    if (f3_skipped)
+      stats().count("on-the-fly: bins not compared in sub-range calls (known finding C04-F3)", f3_skipped);
+    if (f5_skipped)
+      stats().count("on-the-fly: bins not compared in sub-range calls (known finding C04-F5)", f5_skipped);
+    stats().count("on-the-fly: bins not compared in sub-range calls (end point z on a plane boundary: rounding tie)", ztie_skipped);
+  }
+
+  // ---- clause 5: same data as forward projection through the ray-tracing matrix with the same settings -----------------------
+  // same settings = 1 tangential LOR (the class traces one per bin), the same FOV switch, LORs through the bin centres (no
+  // "actual detector boundaries"); the reference is P x in double with P from a symmetry-free, cache-free matrix.
+  {
+    vp::MatrixOpts o;
+    o.num_tangential_LORs = 1;
+    o.restrict_to_cylindrical_FOV = cyl_fov;
+    o.use_actual_detector_boundaries = false;
+    const vp::ExplicitP Pd = vp::ExplicitP::build(X.S.pdi, X.S.img, o);
+    const std::vector<double> ref = Pd.forward(x);
+    const double sc = std::max(max_abs(ref), sc_floor);
+    long compared = 0, ties[5] = { 0, 0, 0, 0, 0 }, f3 = 0, f7 = 0, nonzero = 0, illcond = 0;
+    for (std::size_t i = 0; i < ref.size(); ++i)
+      {
+        const Bin& bn = X.P.bins[i];
+        const std::size_t si = std::size_t(bn.segment_num() - Z.min_seg);
+        const double kappa = kap[i];
+        const c04::TieKind tk = c04::TieKind(tie[i]);
+        if (tk != c04::NO_TIE && !(tk == c04::TIE_PLANE_Z && !excl("F5")))
+          {
+            ++ties[int(tk)];
+            continue;
+          }
+        if (excl("F3") && bn.tangential_pos_num() == 0 && bn.axial_pos_num() == p.get_max_axial_pos_num(bn.segment_num()))
+          {
+            ViewSegmentNumbers vs(bn.view_num(), bn.segment_num());
+            sym->find_basic_view_segment_numbers(vs);
+            if (f3_group(Z, pc, vs.segment_num(), vs.view_num(), num_views))
+              {
+                ++f3;
+                continue; // known finding C04-F3
+              }
+          }
+        // KNOWN FINDING C04-F7: with different x and y voxel sizes the symmetries object switches the 90-degree symmetries off, and
+        // the group of the basic view num_views/4 (45 degrees) is {v, num_views - v}; because num_views - v == v + num_views/2 the
+        // projector takes it for a "view + 90 degrees" pair (ForwardProjectorByBinUsingRayTracing.cxx:198, 279) and fills view
+        // 3*num_views/4 through the x<->y swapping in-line symmetry, which does not hold for non-square voxels.
+        if (excl("F7") && num_views % 4 == 0 && bn.view_num() == 3 * num_views / 4 && std::fabs(vsz.x() - vsz.y()) > 2.E-3F)
+          {
+            ++f7;
+            continue;
+          }
+        ++compared;
+        if (ref[i] != 0.)
+          ++nonzero;
+        if (std::getenv("C04_DUMP"))
+          std::cerr << "DUMP " << show_bin(bn) << " otf " << Ax[i] << " ref " << ref[i] << (std::fabs(Ax[i] - ref[i]) > TOL_OTF * sc ? "  <<<<" : "") << "\n";
+        // tolerance follows the conditioning of the ray (nearly axial-parallel oblique rays: plane crossings move by eps * kappa)
+        const double tol_i = std::max(TOL_OTF, TOL_OTF_KAPPA * kappa);
+        if (tol_i > TOL_OTF_CAP)
+          {
+            --compared;
+            ++illcond;
+            continue; // so ill-conditioned that a comparison could not tell a wrong voxel from rounding: not decided, counted
+          }
+        stats().maxi("(5) max |on-the-fly - P x| / max|P x|, decided bins", std::fabs(Ax[i] - ref[i]) / sc);
+        stats().maxi("(5) max |on-the-fly - P x| / max|P x| / kappa, decided bins", std::fabs(Ax[i] - ref[i]) / sc / kappa);
+        stats().maxi("(5) max kappa of a decided bin", kappa);
+        stats().maxi("(5) max observed / allowed", std::fabs(Ax[i] - ref[i]) / sc / tol_i);
+        VF_CHECK(std::fabs(Ax[i] - ref[i]) <= tol_i * sc, "(5) on-the-fly ray tracing projector gives ", Ax[i], " at ", show_bin(bn), ", forward projection through the ray-tracing matrix (1 LOR, cylFOV=",
+                 cyl_fov, ") gives ", ref[i], ", max|P x| ", sc, " (s=", pc.get_s(bn), " mm, phi=", pc.get_phi(bn), ", planes/axial pos ", Z.nppap[si], ", z offset ", Z.off[si], ") ", desc);
+      }
+    stats().count("(5) bins compared", compared);
+    stats().count("(5) bins compared with non-zero reference", nonzero);
+    stats().count("(5) bins screened: end point on a voxel boundary (T1)", ties[int(c04::TIE_ENDPOINT)]);
+    stats().count("(5) bins screened: ray in a transaxial plane between voxels (T2 xy)", ties[int(c04::TIE_PLANE_XY)]);
+    stats().count("(5) bins screened: direct ray in a plane between image planes (T2 z, finding C04-F5)", ties[int(c04::TIE_PLANE_Z)]);
+    stats().count("(5) bins screened: empty/non-empty or parallel threshold (T3)", ties[int(c04::TIE_EMPTY)]);
+    if (f3)
+      stats().count("(5) bins not compared (known finding C04-F3)", f3);
+    if (f7)
+      stats().count("(5) bins not compared (known finding C04-F7)", f7);
+    stats().count("(5) bins not decided: ill-conditioned ray (tolerance would exceed the cap)", illcond);
+    stats().count("(5) cases compared");
+    if (compared > 0)
+      stats().cls("(5) on-the-fly vs matrix: decided");
+  }
+  return Result::pass();
+}
+
+//! order of magnitude of one back-projected bin value 1: JacobianForIntBP's normalisation (BackProjectorByBinUsingInterpolation.cxx:
+//! backprojection_normalisation = ring_spacing / (2 num_views) x 1/(2R) roughly); only used to recognise numerically-zero images
+double
+bi_norm_hint(const Ctx& X)
+{
+  const ProjDataInfoCylindrical& pc = dynamic_cast<const ProjDataInfoCylindrical&>(*X.S.pdi);
+  return pc.get_ring_spacing() / (4. * X.S.pdi->get_num_views() * pc.get_ring_radius());
+}
+
+// ---- BackProjectorByBinUsingInterpolation: linearity, pieces, accumulation (clauses 3 + 4, back projection side) ----------
+Result
+check_interp_backprojector(Ctx& X)
+{
+  const json& c = X.c;
+  const ProjDataInfo& p = *X.S.pdi;
+  std::string na;
+  const auto vsz = X.S.img->get_voxel_size();
+  if (X.S.sc->get_scanner_geometry() != "Cylindrical" || !dynamic_cast<const ProjDataInfoCylindricalArcCorr*>(&p))
+    na = "data not arc-corrected"; // actual_back_project: error("can only handle arc-corrected data (cast to ProjDataInfoCylindricalArcCorr)")
+  else if (std::fabs(p.get_phi(Bin(0, 0, 0, 0))) > 1e-4)
+    na = "view offset"; // set_up: error("cannot handle non-zero view-offset")
+  else if (p.is_tof_data())
+    na = "TOF data"; // symmetries switch off swap_segment for TOF data -> error("... unexpect number of related viewgrams") for oblique segments
+  else if (p.get_num_views() % 2 != 0 && excl("F8"))
+    {
+      // KNOWN FINDING C04-F8: set_up accepts an odd number of views (ForwardProjectorByBinUsingRayTracing::set_up rejects it with error());
+      // the symmetries then drop the 180-degrees-minus-phi symmetry, views beyond 90 degrees arrive as basic views and the incremental
+      // back projection violates its own "conditions on searching flow" (BackProjectorByBinUsingInterpolation_3DCho.cxx:286 assert(cphi >= 0 - .001)).
+      na = "odd number of views (known finding C04-F8)";
+      stats().count("excluded: interpolating back projector with an odd number of views (known finding C04-F8)");
+    }
+  else if (std::fabs(vsz.x() / vsz.y() - 1) > 1e-4)
+    na = "x and y voxel sizes differ"; // class doc assumption "voxel_size.x() = voxel_size.y()"; error("x,y voxel size must be equal to bin size")
+  ZGeom Z;
+  if (na.empty())
+    {
+      Z = z_geometry(X);
+      if (!Z.ok)
+        na = Z.why;
+      else if (Z.nppr != 2)
+        na = "z voxel size != ring spacing / 2"; // BackProjectorByBinUsingInterpolation_3DCho.cxx:297-299 "in our current coordinate system, the following constant is always 2" + assertion
+      else
+        for (int n : Z.nppap)
+          if (n != 1 && n != 2)
+            na = "planes per axial position not 1 or 2"; // class doc: "voxel_size.z() is either equal to or half the axial_sampling of the projection data"
+    }
+  if (!na.empty())
+    {
+      stats().cls("interpolating back projector: not applicable (" + na + ")");
+      return Result::pass();
+    }
+  shared_ptr<BackProjectorByBinUsingInterpolation> bi(new BackProjectorByBinUsingInterpolation(c["interp"]["pli"].get<bool>(), c["interp"]["exact_jac"].get<bool>()));
+  try
+    {
+      bi->set_up(X.S.pdi, X.S.img);
+    }
+  catch (const stir_verif::AssertionFailure&)
+    {
+      throw;
+    }
+  catch (const std::exception& e)
+    {
+      stats().cls(std::string("interpolating back projector: set_up rejected: ") + std::string(e.what()).substr(0, 60));
+      return Result::pass();
+    }
+  shared_ptr<DataSymmetriesForViewSegmentNumbers> sym(bi->get_symmetries_used()->clone());
+  const std::string desc = cat("[interpolating back projector, pli=", c["interp"]["pli"].get<bool>(), " exactJ=", c["interp"]["exact_jac"].get<bool>(), " views=", p.get_num_views(),
+                               " bins=", X.P.bins.size(), " voxels=", X.P.nvox(), "]");
+  std::vector<double> y, y2;
+  auto pdy = X.new_pd(), pdy2 = X.new_pd(), pdyc = X.new_pd();
+  fill_pd(*pdy, X.P, c["seed_y"].get<uint64_t>() + 81, -1., 1., y);
+  fill_pd(*pdy2, X.P, c["seed_y"].get<uint64_t>() + 82, -1., 1., y2);
+  const double a = c["a"].get<double>(), b = c["b"].get<double>();
+  auto out = X.new_img(), out2 = X.new_img(), outc = X.new_img();
+  out->fill(3.F); // back_project(image, data) starts a new target: the junk must disappear
+  try
+    {
+      bi->back_project(*out, *pdy);
+    }
+  catch (const stir_verif::AssertionFailure&)
+    {
+      throw;
+    }
+  catch (const std::exception& e)
+    {
+      stats().cls(std::string("interpolating back projector: back_project rejected: ") + std::string(e.what()).substr(0, 60));
+      return Result::pass();
+    }
+  stats().cls("interpolating back projector: exercised");
+  const std::vector<double> By = X.P.image_to_vec(*out);
+  const double scb = std::max(max_abs(By), 1e-30);
+  {
+    // the incremental algorithm adds and subtracts increments: an image that is zero in exact arithmetic comes out as +-1e-10.
+    // Such images (no voxel inside the region the class back projects into) make the relative comparisons below meaningless.
+    const double ymax = std::max(max_abs(y), 1e-30);
+    if (max_abs(By) <= 1e-6 * ymax * bi_norm_hint(X))
+      {
+        stats().cls("interpolating back projector: (numerically) all-zero image");
+        return Result::pass();
+      }
+  }
+  for (double v : By)
+    VF_CHECK(std::isfinite(v), "interpolating back projector produced a non-finite voxel value ", desc);
+  // linearity
+  {
+    std::vector<double> yc(y.size());
+    for (std::size_t i = 0; i < yc.size(); ++i)
+      yc[i] = double(float(a * y[i] + b * y2[i]));
+    X.P.vec_to_projdata(*pdyc, yc);
+    bi->back_project(*out2, *pdy2);
+    bi->back_project(*outc, *pdyc);
+    const std::vector<double> By2 = X.P.image_to_vec(*out2), Byc = X.P.image_to_vec(*outc);
+    std::vector<double> lin(By.size());
+    for (std::size_t i = 0; i < lin.size(); ++i)
+      lin[i] = a * By[i] + b * By2[i];
+    const double sc = std::max(std::fabs(a) * max_abs(By) + std::fabs(b) * max_abs(By2), 1e-30);
+    std::size_t w = 0;
+    const double d = max_diff(Byc, lin, &w);
+    stats().maxi("interp. back projector (3) max |B(ay+by') - aBy - bBy'| / scale", d / sc);
+    VF_CHECK(d <= TOL_BPI * sc, "(3) interpolating back projection not linear at voxel index ", w, ": ", Byc[w], " vs ", lin[w], " scale ", sc, " ", desc);
+  }
+  // subsets
+  {
+    const int n = std::max(1, std::min(c["num_subsets"].get<int>(), p.get_num_views()));
+    std::vector<double> sum_b(By.size(), 0.);
+    for (int k = 0; k < n; ++k)
+      {
+        auto bk = X.new_img();
+        bk->fill(3.F);
+        bi->back_project(*bk, *pdy, k, n);
+        const std::vector<double> vb = X.P.image_to_vec(*bk);
+        for (std::size_t i = 0; i < vb.size(); ++i)
+          sum_b[i] += vb[i];
+      }
+    std::size_t w = 0;
+    const double d = max_diff(sum_b, By, &w);
+    stats().maxi("interp. back projector (4) max |sum of subset back projections - one-shot| / max", d / scb);
+    VF_CHECK(d <= TOL_BPI * scb, "(4) interpolating back projector: sum over ", n, " subsets != one-shot at voxel index ", w, ": ", sum_b[w], " vs ", By[w], " max ", scb, " ", desc);
+  }
+  // related-viewgram groups: sum of the groups == one-shot; accumulation of two groups in either order; idempotent get_output
+  {
+    std::vector<double> sum_g(By.size(), 0.), bp_first, bp_second;
+    std::vector<RelatedViewgrams<float>> keep;
+    int ngroups = 0;
+    for (int seg = p.get_min_segment_num(); seg <= p.get_max_segment_num(); ++seg)
+      for (int view = p.get_min_view_num(); view <= p.get_max_view_num(); ++view)
+        {
+          const ViewSegmentNumbers vs(view, seg);
+          if (!sym->is_basic(vs))
+            continue;
+          ++ngroups;
+          const RelatedViewgrams<float> ry = pdy->get_related_viewgrams(vs, sym, false, 0);
+          stats().maxi("interp. back projector: largest related-viewgram group", double(ry.get_num_viewgrams()));
+          bi->start_accumulating_in_new_target();
+          bi->back_project(ry);
+          auto o = X.new_img();
+          bi->get_output(*o);
+          const std::vector<double> vb = X.P.image_to_vec(*o);
+          for (std::size_t i = 0; i < vb.size(); ++i)
+            sum_g[i] += vb[i];
+          if (keep.size() < 2 && max_abs(vb) > 0)
+            {
+              keep.push_back(ry);
+              (keep.size() == 1 ? bp_first : bp_second) = vb;
+            }
+        }
+    std::size_t w = 0;
+    const double d = max_diff(sum_g, By, &w);
+    stats().maxi("interp. back projector (4) max |sum of group back projections - one-shot| / max", d / scb);
+    VF_CHECK(d <= TOL_BPI * scb, "(4) interpolating back projector: sum over ", ngroups, " related-viewgram groups != one-shot at voxel index ", w, ": ", sum_g[w], " vs ", By[w], " max ", scb, " ",
+             desc);
+    stats().count("interp. back projector: related-viewgram groups checked", ngroups);
+    if (keep.size() == 2)
+      {
+        std::vector<double> want(bp_first.size());
+        for (std::size_t i = 0; i < want.size(); ++i)
+          want[i] = bp_first[i] + bp_second[i];
+        const double sc = std::max(max_abs(bp_first) + max_abs(bp_second), 1e-30);
+        for (int order = 0; order < 2; ++order)
+          {
+            bi->start_accumulating_in_new_target();
+            bi->back_project(keep[std::size_t(order)]);
+            bi->back_project(keep[std::size_t(1 - order)]);
+            auto o1 = X.new_img();
+            o1->fill(3.F);
+            bi->get_output(*o1);
+            auto o2 = X.new_img();
+            bi->get_output(*o2);
+            const std::vector<double> g1 = X.P.image_to_vec(*o1), g2 = X.P.image_to_vec(*o2);
+            VF_CHECK(max_diff(g1, g2, &w) == 0., "(4) interpolating back projector: get_output is not idempotent: voxel index ", w, " ", g1[w], " then ", g2[w], " ", desc);
+            const double dd = max_diff(g1, want, &w);
+            stats().maxi("interp. back projector (4) max |accumulated - (bp1+bp2)| / scale", dd / sc);
+            VF_CHECK(dd <= TOL_BPI * sc, "(4) interpolating back projector: accumulated back projection (order ", order, ") != bp(v1)+bp(v2) at voxel index ", w, ": ", g1[w], " vs ", want[w], " ",
+                     desc);
+          }
+        bi->start_accumulating_in_new_target();
+        auto o0 = X.new_img();
+        o0->fill(3.F);
+        bi->get_output(*o0);
+        VF_CHECK(max_abs(X.P.image_to_vec(*o0)) == 0., "(4) interpolating back projector: start_accumulating_in_new_target does not give a zero target ", desc);
+      }
+  }
+  return Result::pass();
 }
 
 Result
 check(const json& c)
 {
   vg::quiet();
+  g_probe = c.value("probe", std::string());
   Ctx X(c);
   const bool interp = c["matrix"].get<std::string>() == "interp";
   shared_ptr<ProjMatrixByBin> m, mref, mplain;
@@ -827,11 +1590,11 @@ check(const json& c)
       stats().count("statistic: rows compared with the symmetry-free matrix", long(Pp.rows.size()));
     }
 
-  if (std::getenv("C04_SIDDON"))
-    siddon_experiment(X);
   C04_DO(check_explicit_and_linear(X));
   C04_DO(check_subsets(X));
   C04_DO(check_groups(X));
+  C04_DO(check_onthefly(X));
+  C04_DO(check_interp_backprojector(X));
   return Result::pass();
 }
 
@@ -841,12 +1604,6 @@ check(const json& c)
 // only covers -(N/2)+1 .. N/2: for a bin at the edge of a (nearly) full tangential range the table is indexed out of
 // range (assertion in this build, out-of-bounds read in a Release build).  Excluded narrowly: blocks geometry AND
 // more than one tangential LOR AND a tangential range that touches the table range.
-inline bool
-no_exclude()
-{
-  static const bool v = std::getenv("VERIF_NO_EXCLUDE") != nullptr;
-  return v;
-}
 bool
 in_known_class(const json& c)
 {
@@ -895,8 +1652,11 @@ gen(Src& s, int size)
   so.allow_tof = true;
   so.allow_blocks = !interp; // ProjMatrixByBinUsingInterpolation "needs ProjDataInfoCylindrical for jacobian" (a cylindrical scanner)
   so.allow_tilt = true;
-  static const bool siddon_bias = std::getenv("C04_SIDDON") != nullptr; // calibration runs of the clause-5 experiment only
-  if (siddon_bias)
+  // bias (not a restriction): in about half of the cases the geometry is steered into the domain of the additional
+  // projector kinds (ForwardProjectorByBinUsingRayTracing / BackProjectorByBinUsingInterpolation, see check_onthefly):
+  // cylindrical, no tilt, non-TOF, even number of views, z voxel size = ring spacing / 2
+  const bool want_otf = s.chance(11, 20);
+  if (want_otf)
     so.allow_blocks = so.allow_tof = so.allow_tilt = false;
   // bias (not a restriction): half of the cases get the class in which all symmetries can be active (no view offset,
   // views a multiple of 4, non-TOF), and very small rings are re-drawn most of the time
@@ -936,9 +1696,15 @@ gen(Src& s, int size)
             pj["views"] = scj["ndet"].get<int>() / 2;
           if (s.chance(3, 4))
             pj["tof_mash"] = 0;
+          if (s.chance(1, 3))
+            pj["arccorr"] = true; // BackProjectorByBinUsingInterpolation "can only handle arc-corrected data"
         }
-      if (siddon_bias)
-        pj["arccorr"] = pj["arccorr"].get<bool>() && s.coin();
+      if (want_otf && scj["geometry"].get<std::string>() == "Cylindrical")
+        {
+          if (pj["views"].get<int>() % 2 != 0)
+            pj["views"] = scj["ndet"].get<int>() / 2 % 2 == 0 ? scj["ndet"].get<int>() / 2 : pj["views"].get<int>();
+          pj["tof_mash"] = 0;
+        }
       // blocks geometries: get_s/get_LOR go through ProjDataInfoCylindrical::get_ring_pair_for_segment_axial_pos_num, which
       // error()s "does not work for data with axial compression" -> every row request fails for span > 1 (kept 1 in 20 as a rejected class)
       if (scj["geometry"].get<std::string>() == "BlocksOnCylindrical" && pj["span"].get<int>() > 1 && s.chance(19, 20))
@@ -966,13 +1732,18 @@ gen(Src& s, int size)
       im["nx"] = std::max(im["nx"].get<int>(), int(s.range(13, 21)));
       im["ny"] = std::max(im["ny"].get<int>(), s.coin() ? im["nx"].get<int>() : int(s.range(13, 21)));
     }
-  if (siddon_bias)
+  if (want_otf)
     {
-      im["z_div"] = s.coin() ? 1 : 2;
-      im["vx_rel"] = s.pick(std::vector<double>{ 1., 1.5, 2. });
-      im["vy_same"] = true;
-      im["nx"] = std::max(im["nx"].get<int>(), 9);
-      im["ny"] = im["nx"];
+      // z voxel size = ring spacing / 2: z_div 2 for span 1 (axial sampling = ring spacing), 1 for span > 1 (sampling = ring spacing / 2)
+      im["z_div"] = pj["span"].get<int>() == 1 ? 2 : 1;
+      if (s.chance(3, 4))
+        im["vy_same"] = true;
+      if (s.chance(2, 3))
+        im["nx"] = std::max(im["nx"].get<int>(), 7);
+      if (s.chance(2, 3))
+        im["ny"] = im["nx"];
+      if (s.coin()) // planes centred on the data planes (integer axial_pos_to_z_offset): nz - (planes spanned by segment 0) even
+        im["nz_extra"] = pj["span"].get<int>() == 1 ? int(s.pick(std::vector<int>{ -1, 1 })) : int(s.pick(std::vector<int>{ -2, 0, 2 }));
     }
   c["image"] = im;
   json sym = json::array();
@@ -1004,6 +1775,7 @@ gen(Src& s, int size)
   for (int k = 0; k < nsr; ++k)
     sr.push_back(json::array({ s.range(0, 30), s.range(0, 30), s.range(0, 60), s.range(0, 60) }));
   c["subranges"] = sr;
+  c["sr_budget"] = size >= 80 ? 20000 : 1200; // sub-range calls per case for the on-the-fly projector kind (thorough: effectively all combinations)
   return c;
 }
 
@@ -1026,5 +1798,7 @@ the_property()
   p.nontrivial = nontrivial;
   p.known_signature = known_signature;
   p.rule = "num_subsets > 1 or at least one sub-range call or related-viewgram groups of size > 1; x, y random signed (non-zero)";
+  // (the additional projector kinds are exercised inside the same cases: see the classes "on-the-fly projector: exercised",
+  //  "(5) on-the-fly vs matrix: decided", "interpolating back projector: exercised" in the evidence)
   return p;
 }
